@@ -229,6 +229,32 @@ def _hourly_requires_usage(tree):
     return "expected_columns = ['observed', 'temperature']" in src and "issubset(set(df.columns))" in src
 
 
+def _billing_month_min_count(tree):
+    """_BillingData._compute_meter_value_df: meter_series.resample("MS").sum(min_count=1) -> True (a calendar month
+    without any value has no total), .sum() -> False (it sums to 0); anything else is not recognised"""
+    fn = _method(_class(tree, "_BillingData"), "_compute_meter_value_df")
+    found = []
+    for n in ast.walk(fn):
+        if isinstance(n, ast.Call) and isinstance(n.func, ast.Attribute) and n.func.attr == "sum" \
+                and isinstance(n.func.value, ast.Call) and isinstance(n.func.value.func, ast.Attribute) \
+                and n.func.value.func.attr == "resample":
+            rs = n.func.value
+            if not (len(rs.args) == 1 and isinstance(rs.args[0], ast.Constant) and rs.args[0].value == "MS" and not rs.keywords):
+                raise TranslateError("billing: monthly resample is not resample('MS')")
+            if n.args:
+                raise TranslateError("billing: positional arguments in the monthly sum")
+            kw = {k.arg: k.value for k in n.keywords}
+            if not kw:
+                found.append(False)
+            elif set(kw) == {"min_count"} and isinstance(kw["min_count"], ast.Constant) and kw["min_count"].value == 1:
+                found.append(True)
+            else:
+                raise TranslateError("billing: monthly sum with unrecognised arguments %s" % sorted(kw))
+    if len(found) != 1:
+        raise TranslateError("billing: %d monthly sums of the meter rows found" % len(found))
+    return found[0]
+
+
 def extract():
     tree = _parse(SC)
     base = _class(tree, "SufficiencyCriteria")
@@ -260,6 +286,7 @@ def extract():
                              "baseline_adds_usage": (_hourly_requires_usage(t) if fam == "Hourly" else
                                                      _baseline_adds_usage(_class(t, bname)))}
     out["offcycle_target"] = _offcycle_target(_parse(DATA["Billing"][0]))
+    out["billing_month_min_count"] = _billing_month_min_count(_parse(DATA["Billing"][0]))
     # how _set_data recognises a UTC index (used by the harness for the warning it expects of the code as it is; not
     # fail-closed: an unrecognised form falls back to the name rule and the correspondence decides)
     rules = set()
@@ -299,6 +326,8 @@ def render(x):
             "  | %s => %s" % (fam, vlib.coq_bool(x["flags"][fam]["reporting_flag"])) for fam in ("Daily", "Billing", "Hourly")),
         "(* billing: off-cycle reads are appended to .disqualification (true) or to .warnings (false) *)",
         "Definition gen_offcycle_dq : bool := %s." % vlib.coq_bool(x["offcycle_target"] == "disqualification"),
+        "(* billing classes fed with daily / hourly rows: the monthly total is sum(min_count=1) (true) or sum() (false) *)",
+        "Definition gen_billing_month_min_count : bool := %s." % vlib.coq_bool(x["billing_month_min_count"]),
         "(* the rows that carry data (no_data, n_days_total) ignore the usage column of reporting data *)",
         "Definition gen_span_ignores_usage : bool := %s." % vlib.coq_bool(x["span_ignores_usage"]),
         "(* the valid-day counts are int(round(sum, k)) (true) or int(sum) (false) *)",
